@@ -147,6 +147,11 @@ inductive Op
   | older (t : DT) (s : Secs)     -- is_older_than(t, s)
   | newer (t : DT) (s : Secs)     -- is_newer_than(t, s)
   | soon (t : DT) (w : Secs)      -- is_soon(t, w)
+  -- fixture.TimeFixture (fixture.py:30-53) works on the same cell through its own entry points:
+  | fxSetUp (t : Int)             -- TimeFixture(t).setUp(): set_time_override(the constructor's instant)
+  | fxCleanUp                     -- the clean-up registered by setUp: clear_time_override()
+  | fxAdvDelta (d : Int)          -- TimeFixture.advance_time_delta: timeutils.advance_time_delta(d)
+  | fxAdvSeconds (s : Secs)       -- TimeFixture.advance_time_seconds: timeutils.advance_time_seconds(s)
 
 inductive Out
   | none                          -- the call returned None
@@ -162,29 +167,34 @@ def outOf : Except Err Bool → Out
   | .ok b => .bool b
   | .error e => .err e
 
+/-- `advance_time_delta` (154-165) on the cell -/
+def advance (st : Clock) (d : Int) : Clock × Out :=
+  match st with
+  | none => (none, .err .assertion)                      -- assert override_time is not None
+  | some c =>
+    match mkInstant (c + d) with                         -- override_time += timedelta
+    | .ok c' => (some c', .none)
+    | .error e => (some c, .err e)                       -- raised before the assignment
+
+/-- `advance_time_seconds` (168-174): `timedelta(0, seconds)` is built first -/
+def advanceSeconds (st : Clock) (s : Secs) : Clock × Out :=
+  match usOfSeconds s with
+  | .error e => (st, .err e)
+  | .ok d => advance st d
+
 /-- one call.  `set_time_override` (139-151), `advance_time_delta` (154-165),
     `advance_time_seconds` (168-174), `clear_time_override` (177-183), `utcnow` (118-133),
     `utcnow_ts` (93-115). -/
 def step (st : Clock) : Op → Clock × Out
   | .set t => (some t, .none)
   | .clear => (none, .none)
-  | .advDelta d =>
-    match st with
-    | none => (none, .err .assertion)                    -- assert override_time is not None
-    | some c =>
-      match mkInstant (c + d) with                       -- override_time += timedelta
-      | .ok c' => (some c', .none)
-      | .error e => (some c, .err e)                     -- raised before the assignment
-  | .advSeconds s =>
-    match usOfSeconds s with                             -- timedelta(0, seconds) is built first
-    | .error e => (st, .err e)
-    | .ok d =>
-      match st with
-      | none => (none, .err .assertion)
-      | some c =>
-        match mkInstant (c + d) with
-        | .ok c' => (some c', .none)
-        | .error e => (some c, .err e)
+  | .advDelta d => advance st d
+  | .advSeconds s => advanceSeconds st s
+  -- the fixture holds no time of its own: every one of its methods acts on the one cell
+  | .fxSetUp t => (some t, .none)
+  | .fxCleanUp => (none, .none)
+  | .fxAdvDelta d => advance st d
+  | .fxAdvSeconds s => advanceSeconds st s
   | .utcnow _ =>                                         -- the override is returned as it is,
     match st with                                        -- whatever with_timezone says
     | none => (none, .real)
